@@ -39,8 +39,10 @@ LookOK(R, L, G, q) ==
             /\ e.who = q.r
             /\ e.vals = q.vals
             /\ e.svcs = ToSet(q.svcs)
-            \* the client's own safe-search engine goes with its own values
-            /\ (q.n = "ss") <=> c.own
+            \* the client's own safe-search engine (it exists only while the
+            \* client's own safe search is enabled, as package home builds it)
+            \* goes with its own values
+            /\ (q.n = "ss") <=> (c.own /\ c.vals[2])
       [] OTHER -> FALSE
 
 LooksOK(R, L, G, ln) == \A i \in DOMAIN ln.q : LookOK(R, L, G, ln.q[i])
